@@ -242,6 +242,16 @@ def run_part(prop, seed, budget):
         n += 1; distinct.add(case_hash("c7-gqlprops")); hist["resolver-properties-overridden-in-a-subclass"] += 1
         want = {"one": {"owner": "bob", "displayName": objs[1].display_name, "kind": objs[1].kind, "greeting": objs[1].greeting()},
                 "many": [{"displayName": o.display_name, "kind": o.kind, "greeting": o.greeting("?")} for o in objs]}
+        # enums with a mixin are enums like the others: a named GraphQL enum, values published by name
+        esrc = ["from enum import Enum", f"class CS{i}(str, Enum):", "    RED = 'r'", "    BLUE = 'b'", f"class CI{i}(int, Enum):", "    ONE = 1", f"class CP{i}(Enum):", "    X = 'x'", ""]
+        eg = vars(build_module(esrc, f"corners7enum_{seed}")); CS, CI, CP = eg[f"CS{i}"], eg[f"CI{i}"], eg[f"CP{i}"]
+        def cs() -> CS: return CS.BLUE
+        def ci() -> CI: return CI.ONE
+        def cp() -> CP: return CP.X
+        n += 1; distinct.add(case_hash("c7-gqlenum")); hist["enums-with-a-mixin"] += 1
+        er = _out(lambda: graphql.graphql_sync(graphql_schema(query=[cs, ci, cp]), "{ cs ci cp }"))
+        if er[0] != "ok" or er[1].errors or er[1].data != {"cs": "BLUE", "ci": "ONE", "cp": "X"}:
+            _fail(failures, "mixin-enums", "crash:" + er[1].split(":")[0] if er[0] == "crash" else "enum-not-published-by-name", got=(er[1].data, [str(e) for e in er[1].errors or []]) if er[0] == "ok" else er)
         if r[0] != "ok" or r[1].errors or r[1].data != want:
             _fail(failures, "overridden-resolvers", "executed-query-differs-from-the-attributes-of-the-object", got=(r[1].data, r[1].errors) if r[0] == "ok" else r, expected=want)
     return failures, n, distinct, hist
